@@ -82,12 +82,123 @@ theorem cfgStep_setNrep_consistent (t : Nat) (c c' : Cfg α) (x : Nat ⊕ List N
   obtain ⟨l, hl, rfl⟩ := h
   exact ⟨nrepSetter_length c.nenv x l hl, rfl⟩
 
-/-- **D60, exactly.**  The `nenv` setter stores the number and leaves the replicate array alone: from a consistent
-    configuration the result is consistent iff the number of environments did not change. -/
-theorem cfgStep_setNenv_consistent_iff (t : Nat) (c c' : Cfg α) (n : Nat) (hc : c.Consistent)
+/-! #### the replicate array follows `nenv` (repaired setter) -/
+
+theorem isConst_replicate (n k : Nat) : isConst (List.replicate n k) = true := by
+  cases n with
+  | zero => rfl
+  | succ n => simp [List.replicate_succ, isConst]
+
+theorem isConst_iff (l : List Nat) : isConst l = true ↔ ∀ a ∈ l.head?, ∀ x ∈ l, x = a := by
+  cases l with
+  | nil => simp [isConst]
+  | cons a l =>
+    simp only [isConst, List.all_eq_true, beq_iff_eq, List.head?_cons, Option.mem_def, Option.some.injEq,
+      List.mem_cons, forall_eq']
+    constructor
+    · intro h x hx
+      rcases hx with rfl | hx
+      · rfl
+      · exact h x hx
+    · intro h x hx
+      exact h x (Or.inr hx)
+
+/-- what the repaired setter does, case by case -/
+theorem nrepFollow_cases (n : Nat) (l : List Nat) :
+    (n ≤ l.length → nrepFollow n l = l.take n) ∧
+    (l.length < n → isConst l = true → ∀ a ∈ l.head?, nrepFollow n l = List.replicate n a) ∧
+    (l.length < n → isConst l = false → nrepFollow n l = l) := by
+  refine ⟨?_, ?_, ?_⟩
+  · intro h
+    unfold nrepFollow
+    split
+    · rfl
+    · have : l.length = n := by omega
+      rw [if_neg (by omega), ← this, List.take_length]
+  · intro h hc a ha
+    unfold nrepFollow
+    rw [if_neg (by omega), if_pos h]
+    cases l with
+    | nil => simp at ha
+    | cons b l' =>
+      simp only [List.head?_cons, Option.mem_def, Option.some.injEq] at ha
+      subst ha
+      simp only [hc, if_true]
+  · intro h hc
+    unfold nrepFollow
+    rw [if_neg (by omega), if_pos h]
+    cases l with
+    | nil => rfl
+    | cons b l' => simp only [hc]; rfl
+
+/-- positivity of the entries survives -/
+theorem nrepFollow_pos (n : Nat) (l : List Nat) (h : ∀ k ∈ l, 0 < k) : ∀ k ∈ nrepFollow n l, 0 < k := by
+  intro k hk
+  unfold nrepFollow at hk
+  split at hk
+  · exact h k (List.mem_of_mem_take hk)
+  · split at hk
+    · cases l with
+      | nil => exact h k hk
+      | cons a l' =>
+        simp only at hk
+        split at hk
+        · rw [List.eq_of_mem_replicate hk]; exact h a (by simp)
+        · exact h k hk
+    · exact h k hk
+
+/-- **The repaired `nenv` setter, exactly** (fix of D60).  From a consistent configuration, `nenv := n` stores `n`; the
+    replicate array is truncated (`n ≤ nenv`), re-broadcast (`n > nenv`, constant array — in particular a broadcast integer
+    `nrep`) or left alone (`n > nenv`, non-constant array); the result is consistent iff `n ≤ nenv` or the array is constant. -/
+theorem cfgStep_setNenv_consistent_iff (t : Nat) (c c' : Cfg α) (n : Nat) (hc : c.Consistent) (hpos : 0 < c.nenv)
     (h : cfgStep t c (.setNenv n) = some c') :
-    c'.nrep = c.nrep ∧ c'.nenv = n ∧ (c'.Consistent ↔ n = c.nenv) := by
+    c'.nenv = n ∧ 0 < n ∧ c'.nrep = nrepFollow n c.nrep ∧ (∀ k ∈ c'.nrep, 0 < k) ∧
+      (c'.Consistent ↔ (n ≤ c.nenv ∨ isConst c.nrep = true)) := by
   simp only [cfgStep] at h
+  split at h
+  · rename_i hn
+    simp only [Option.some.injEq] at h
+    subst h
+    refine ⟨rfl, hn, rfl, nrepFollow_pos n c.nrep hc.2, ?_⟩
+    obtain ⟨h1, h2, h3⟩ := nrepFollow_cases n c.nrep
+    unfold Cfg.Consistent
+    simp only
+    constructor
+    · intro h'
+      by_cases hle : n ≤ c.nenv
+      · exact Or.inl hle
+      · right
+        have hlt : c.nrep.length < n := by rw [hc.1]; omega
+        by_contra hcst
+        have hcst' : isConst c.nrep = false := by simpa using hcst
+        rw [h3 hlt hcst'] at h'
+        omega
+    · rintro (hle | hcst)
+      · rw [h1 (by rw [hc.1]; exact hle)]
+        exact ⟨by simp [hc.1, hle], fun k hk => hc.2 k (List.mem_of_mem_take hk)⟩
+      · by_cases hle : n ≤ c.nenv
+        · rw [h1 (by rw [hc.1]; exact hle)]
+          exact ⟨by simp [hc.1, hle], fun k hk => hc.2 k (List.mem_of_mem_take hk)⟩
+        · have hlt : c.nrep.length < n := by rw [hc.1]; omega
+          cases hnr : c.nrep with
+          | nil =>
+            have := hc.1
+            rw [hnr] at this
+            simp at this
+            omega
+          | cons a l' =>
+            have := h2 hlt hcst a (by rw [hnr]; simp)
+            rw [hnr] at this
+            rw [this]
+            exact ⟨by simp, fun k hk => by rw [List.eq_of_mem_replicate hk]; exact hc.2 a (by rw [hnr]; simp)⟩
+  · simp at h
+
+/-- **D60, exactly (pre-repair setter).**  The `nenv` setter stored the number and left the replicate array alone: from a
+    consistent configuration the result was consistent iff the number of environments did not change. -/
+theorem cfgStepPrerepair_setNenv_consistent_iff (t : Nat) (c c' : Cfg α) (n : Nat) (hc : c.Consistent)
+    (h : cfgStepPrerepair t c (.setNenv n) = some c') :
+    c'.nrep = c.nrep ∧ c'.nenv = n ∧ (c'.Consistent ↔ n = c.nenv) := by
+  simp only [cfgStepPrerepair] at h
   split at h
   · simp only [Option.some.injEq] at h
     subst h
@@ -108,30 +219,160 @@ theorem cfgStep_var_layout (t : Nat) (c c' : Cfg α) (op : CfgOp α)
     obtain ⟨l, _, rfl⟩ := h
     exact ⟨rfl, rfl⟩
 
-/-- bookkeeping of a setter history: (number of environments now in force, number in force at the last `nrep` assignment) -/
+/-- a configuration whose replicate array is one broadcast value: `nrep = [k] * nenv`, `k > 0` -/
+def Cfg.Broadcast (c : Cfg α) (k : Nat) : Prop := c.nrep = List.replicate c.nenv k ∧ 0 < k ∧ 0 < c.nenv
+
+theorem Cfg.Broadcast.consistent {c : Cfg α} {k : Nat} (h : c.Broadcast k) : c.Consistent := by
+  refine ⟨by rw [h.1]; simp, fun x hx => ?_⟩
+  rw [h.1] at hx
+  rw [List.eq_of_mem_replicate hx]
+  exact h.2.1
+
+/-- one step keeps a broadcast replicate array broadcast, unless `nrep` itself is assigned -/
+theorem cfgStep_broadcast (t : Nat) (c c' : Cfg α) (k : Nat) (hb : c.Broadcast k) (op : CfgOp α)
+    (hop : ∀ x, op ≠ .setNrep x) (h : cfgStep t c op = some c') : c'.Broadcast k := by
+  cases op with
+  | setNrep x => exact absurd rfl (hop x)
+  | setNenv n =>
+    obtain ⟨h1, hn, h3, _, _⟩ := cfgStep_setNenv_consistent_iff t c c' n hb.consistent hb.2.2 h
+    obtain ⟨hb1, hb2, hb3⟩ := hb
+    refine ⟨?_, hb2, by rw [h1]; exact hn⟩
+    rw [h3, h1, hb1]
+    obtain ⟨c1, c2, _⟩ := nrepFollow_cases n (List.replicate c.nenv k)
+    by_cases hle : n ≤ c.nenv
+    · rw [c1 (by simpa using hle)]
+      simp [List.take_replicate, Nat.min_eq_left hle]
+    · have hlt : (List.replicate c.nenv k).length < n := by simp; omega
+      have hhead : k ∈ (List.replicate c.nenv k).head? := by
+        cases hne : c.nenv with
+        | zero => omega
+        | succ m => simp [List.replicate_succ]
+      exact c2 hlt (isConst_replicate _ _) k hhead
+  | setVarEnv v =>
+    obtain ⟨h1, h2⟩ := cfgStep_var_layout t c c' _ (Or.inl ⟨v, rfl⟩) h
+    exact ⟨by rw [h2, h1, hb.1], hb.2.1, by rw [h1]; exact hb.2.2⟩
+  | setVarRep v =>
+    obtain ⟨h1, h2⟩ := cfgStep_var_layout t c c' _ (Or.inr (Or.inl ⟨v, rfl⟩)) h
+    exact ⟨by rw [h2, h1, hb.1], hb.2.1, by rw [h1]; exact hb.2.2⟩
+  | setVarErr v =>
+    obtain ⟨h1, h2⟩ := cfgStep_var_layout t c c' _ (Or.inr (Or.inr ⟨v, rfl⟩)) h
+    exact ⟨by rw [h2, h1, hb.1], hb.2.1, by rw [h1]; exact hb.2.2⟩
+
+/-- **A scalar `nrep` follows every later `nenv` assignment** (the repaired D60, histories of any length): along a history
+    without `nrep` assignment, a broadcast replicate array stays `[k] * (current nenv)`. -/
+theorem cfgRun_broadcast (t : Nat) (ops : List (CfgOp α)) (c c' : Cfg α) (k : Nat) (hb : c.Broadcast k)
+    (hops : ∀ op ∈ ops, ∀ x, op ≠ .setNrep x) (h : cfgRun t c ops = some c') : c'.Broadcast k := by
+  induction ops generalizing c with
+  | nil =>
+    simp only [cfgRun, Option.some.injEq] at h
+    subst h
+    exact hb
+  | cons op ops ih =>
+    simp only [cfgRun, Option.bind_eq_some_iff] at h
+    obtain ⟨c₁, h₁, h₂⟩ := h
+    exact ih c₁ (cfgStep_broadcast t c c₁ k hb op (hops op (by simp)) h₁) (fun o ho => hops o (by simp [ho])) h₂
+
+/-- the constructor with an integer `nrep` yields a broadcast array -/
+theorem cfgInit_broadcast (t nenv k : Nat) (ve vr vx : VarArg α) (c : Cfg α)
+    (h : cfgInit t nenv (.inl k) ve vr vx = some c) : c.Broadcast k := by
+  unfold cfgInit at h
+  split at h
+  · rename_i hpos
+    split at h
+    · rename_i l a b d h1 h2 h3 h4
+      simp only [Option.some.injEq] at h
+      subst h
+      simp only [nrepSetter] at h1
+      split at h1
+      · rename_i hk
+        simp only [Option.some.injEq] at h1
+        exact ⟨h1.symm, hk, hpos⟩
+      · simp at h1
+    · simp at h
+  · simp at h
+
+/-- the invariant of EVERY setter history (repaired setters): the replicate array never has more entries than there are
+    environments, and its entries are positive -/
+def Cfg.Inv (c : Cfg α) : Prop := c.nrep.length ≤ c.nenv ∧ ∀ k ∈ c.nrep, 0 < k
+
+theorem Cfg.Consistent.inv {c : Cfg α} (h : c.Consistent) : c.Inv := ⟨by rw [h.1], h.2⟩
+
+theorem nrepFollow_length (n : Nat) (l : List Nat) (hl : l ≠ []) : (nrepFollow n l).length ≤ n := by
+  unfold nrepFollow
+  split
+  · simp only [List.length_take]; omega
+  · split
+    · cases l with
+      | nil => exact absurd rfl hl
+      | cons a l' =>
+        simp only
+        split
+        · simp
+        · omega
+    · omega
+
+theorem cfgStep_inv (t : Nat) (c c' : Cfg α) (op : CfgOp α) (hc : c.Inv) (h : cfgStep t c op = some c') : c'.Inv := by
+  cases op with
+  | setNrep x => exact (cfgStep_setNrep_consistent t c c' x h).1.inv
+  | setNenv n =>
+    simp only [cfgStep] at h
+    split at h
+    · simp only [Option.some.injEq] at h
+      subst h
+      refine ⟨?_, nrepFollow_pos n c.nrep hc.2⟩
+      simp only
+      by_cases hl : c.nrep = []
+      · rw [hl]; simp [nrepFollow]
+      · exact nrepFollow_length n c.nrep hl
+    · simp at h
+  | setVarEnv v =>
+    obtain ⟨h1, h2⟩ := cfgStep_var_layout t c c' _ (Or.inl ⟨v, rfl⟩) h
+    exact ⟨by rw [h1, h2]; exact hc.1, by rw [h2]; exact hc.2⟩
+  | setVarRep v =>
+    obtain ⟨h1, h2⟩ := cfgStep_var_layout t c c' _ (Or.inr (Or.inl ⟨v, rfl⟩)) h
+    exact ⟨by rw [h1, h2]; exact hc.1, by rw [h2]; exact hc.2⟩
+  | setVarErr v =>
+    obtain ⟨h1, h2⟩ := cfgStep_var_layout t c c' _ (Or.inr (Or.inr ⟨v, rfl⟩)) h
+    exact ⟨by rw [h1, h2]; exact hc.1, by rw [h2]; exact hc.2⟩
+
+/-- **Setter histories (repaired).**  After any accepted history from a consistent configuration the replicate array has at
+    most `nenv` positive entries; it has FEWER than `nenv` (the only inconsistent state, which `phenotype` refuses) only if
+    some `nenv` assignment raised the number over a non-constant array and no `nrep` assignment followed. -/
+theorem cfgRun_inv (t : Nat) (ops : List (CfgOp α)) (c c' : Cfg α) (hc : c.Inv) (h : cfgRun t c ops = some c') : c'.Inv := by
+  induction ops generalizing c with
+  | nil =>
+    simp only [cfgRun, Option.some.injEq] at h
+    subst h
+    exact hc
+  | cons op ops ih =>
+    simp only [cfgRun, Option.bind_eq_some_iff] at h
+    obtain ⟨c₁, h₁, h₂⟩ := h
+    exact ih c₁ (cfgStep_inv t c c₁ op hc h₁) h₂
+
+/-- bookkeeping of a PRE-REPAIR setter history: (number of environments now in force, number in force at the last `nrep`
+    assignment) -/
 def trackNenv : Nat × Nat → List (CfgOp α) → Nat × Nat
   | s, [] => s
   | s, .setNenv n :: ops => trackNenv (n, s.2) ops
   | s, .setNrep _ :: ops => trackNenv (s.1, s.1) ops
   | s, _ :: ops => trackNenv s ops
 
-/-- **Setter histories.**  After any accepted history the stored number of environments is the one assigned last, and the
-    replicate array has the length that was in force at the last `nrep` assignment: the configuration is consistent
-    exactly when these two numbers agree. -/
-theorem cfgRun_lengths (t : Nat) (ops : List (CfgOp α)) (c c' : Cfg α) (h : cfgRun t c ops = some c') :
+/-- **Setter histories before the repair.**  After any accepted history the stored number of environments was the one
+    assigned last, and the replicate array had the length that was in force at the last `nrep` assignment. -/
+theorem cfgRunPrerepair_lengths (t : Nat) (ops : List (CfgOp α)) (c c' : Cfg α) (h : cfgRunPrerepair t c ops = some c') :
     c'.nenv = (trackNenv (c.nenv, c.nrep.length) ops).1 ∧ c'.nrep.length = (trackNenv (c.nenv, c.nrep.length) ops).2 := by
   induction ops generalizing c with
   | nil =>
-    simp only [cfgRun, Option.some.injEq] at h
+    simp only [cfgRunPrerepair, Option.some.injEq] at h
     subst h
     exact ⟨rfl, rfl⟩
   | cons op ops ih =>
-    simp only [cfgRun, Option.bind_eq_some_iff] at h
+    simp only [cfgRunPrerepair, Option.bind_eq_some_iff] at h
     obtain ⟨c₁, h₁, h₂⟩ := h
     have := ih c₁ h₂
     cases op with
     | setNenv n =>
-      simp only [cfgStep] at h₁
+      simp only [cfgStepPrerepair] at h₁
       split at h₁
       · simp only [Option.some.injEq] at h₁
         subst h₁
